@@ -837,6 +837,9 @@ class ParallelProcess(Process):
         # Only end once.
         if self._ended:
             return
+        if self._pending_command:
+            # collect the result of the command still in flight
+            self.get_command_result()
         self.send_command('end')
         if self.profile:
             stats = pstats.Stats()
